@@ -109,6 +109,7 @@ _MIASM_EXPORT bn_t bignum_from_int(DTYPE_TMP i);
 _MIASM_EXPORT bn_t bignum_from_uint64(uint64_t i);
 _MIASM_EXPORT int  bignum_to_int(bn_t n);
 _MIASM_EXPORT uint64_t bignum_to_uint64(bn_t n);
+_MIASM_EXPORT int bignum_to_shift_count(bn_t n); /* min(n, BN_BIT_SIZE) */
 _MIASM_EXPORT bn_t bignum_from_string(char* str, int nbytes);
 _MIASM_EXPORT void bignum_to_string(bn_t n, char* str, int maxsize);
 
